@@ -265,6 +265,8 @@ func checkC20(c *Ctx, r *Report, tier string) {
 	snapshotCarriesMembership(c, r, "C20.R5")
 	r.Rule("C20.R6", "a node with peers configured performs the join handshake on every start (its reply is what restores the peers' addresses after the membership log was compacted)", 1)
 	joinIsUnconditional(c, r, "C20.R6")
+	r.Rule("C20.R7", "a restarted member recovers real addresses: an address-less bootstrap entry replayed from the log does not shadow the address learned from the join handshake", 1)
+	emptyAddressDoesNotShadow(c, r, "C20.R7")
 	r.Rule("C20.R2", "the address travels in the entry: the join proposal stores its address argument in ConfChange.Context; the handler hands string(cc.Context) and cc.NodeID of the same unmarshalled change to the address book; the join handler proposes before it answers and answers with the member list plus the joiner", 3)
 	r.Rule("C20.R3", "the zero group's snapshot covers the address book and the conf state (frozen table: cluster.Conn.addresses, RaftGroup.raftConfState)", 2)
 	r.Rule("C20.R4", "a membership change is acknowledged only after it is applied: a function that proposes a ConfChange on behalf of an RPC waits, before any success return, on something only the ConfChange handler signals", 2)
